@@ -22,7 +22,7 @@ from ..model import AnchorError, Program
 MODULE_FUNCS = (
     "value_from_ast", "_type_from_ast", "_type_from_runtime", "make_type_var_value", "_callable_args_from_runtime", "_args_from_concatenate",
     "_eval_forward_ref", "_type_from_value", "_type_from_subscripted_value", "_maybe_get_extra", "_is_tuple", "_value_of_origin_args",
-    "_maybe_typed_value", "_make_sequence_value", "_make_callable_from_value", "_make_annotated",
+    "_maybe_typed_value", "_make_sequence_value", "_make_callable_from_value", "_make_annotated", "_get_typeddict_value",
 )
 VALUE_CLASSES = (
     "KnownValue", "TypedValue", "GenericValue", "SequenceValue", "SubclassValue", "CallableValue", "AnnotatedValue", "MultiValuedValue", "AnyValue",
@@ -110,6 +110,17 @@ class AnnotModel:
             self.module_defs[name] = prog.func("annotations", name)
         vis = prog.cls("_Visitor")
         self.method_defs = {("_Visitor", m): fn for m, fn in vis.methods.items() if m.startswith("visit_") or m == "generic_visit"}
+        # names are resolved the way the runtime-signature route does it: arg_spec.AnnotationsContext.get_name ->
+        # Context.get_name_from_globals (module globals, then builtins) -> Context.handle_undefined_name
+        base_ctx = prog.classes_by_qual.get("annotations.Context")
+        if base_ctx is None:
+            raise AnchorError("annotations.Context not found")
+        for m in ("get_name_from_globals", "handle_undefined_name", "get_attribute"):
+            self.method_defs[("Context", m)] = base_ctx.methods[m]
+        ac = prog.classes_by_qual.get("arg_spec.AnnotationsContext")
+        if ac is None or "get_name" not in ac.methods:
+            raise AnchorError("arg_spec.AnnotationsContext.get_name not found")
+        self.method_defs[("Context", "get_name")] = ac.methods["get_name"]
         # class hierarchy of the value classes (for isinstance on model values)
         self.bases: Dict[str, Tuple[str, ...]] = {}
         for name in VALUE_CLASSES:
@@ -226,6 +237,8 @@ class AnnotModel:
             "ParamSpecArgsValue": lambda args: sv("ParamSpecArgsValue", param_spec=args[0]),
             "ParamSpecKwargsValue": lambda args: sv("ParamSpecKwargsValue", param_spec=args[0]),
             "TypeVarValue": kw(typevar_value),
+            "TypedDictEntry": kw(lambda args, kwargs=None: sv("TypedDictEntry", **{**dict(zip(("typ", "required", "readonly"), args)), **(kwargs or {})})),
+            "TypedDictValue": kw(lambda args, kwargs=None: sv("TypedDictValue", items=dict(args[0]), extra_keys=(kwargs or {}).get("extra_keys", args[1] if len(args) > 1 else None), extra_keys_readonly=bool((kwargs or {}).get("extra_keys_readonly", False)))),
             "SigParameter": kw(sig_parameter),
             "unite_values": kw(unite),
             "annotate_value": kw(annotate_value),
@@ -261,8 +274,8 @@ class AnnotModel:
 
         nop_cm = lambda *a, **k: Obj("ContextManager", __enter__=lambda: None, __exit__=lambda exc=None: None)  # noqa: E731
         ctx = Obj(
-            "Context", get_name=get_name, get_attribute=get_attribute, show_error=show_error, is_being_evaluted=lambda obj: False, add_evaluation=nop_cm,
-            suppress_undefined_names=nop_cm,
+            "Context", show_error=show_error, is_being_evaluted=lambda obj: False, add_evaluation=nop_cm, suppress_undefined_names=nop_cm,
+            globals=namespace, should_suppress_undefined_names=False,
         )
 
         def make_visitor(args: List[Any]) -> Obj:
@@ -296,7 +309,7 @@ class AnnotModel:
             "ast": ast, "typing": typing, "typing_extensions": typing_extensions, "contextlib": contextlib,
             "Callable": collections.abc.Callable, "Hashable": collections.abc.Hashable, "Union": typing.Union, "NewType": typing.NewType, "Literal": typing_extensions.Literal,
             "NoDefault": typing_extensions.NoDefault, "TypedDict": typing_extensions.TypedDict, "ParamSpec": typing_extensions.ParamSpec, "Optional": typing.Optional,
-            "AsynqCallable": Sym("AsynqCallable"), "deprecated": Sym("deprecated"), "TypeVar": typing.TypeVar, "InitVar": dataclasses.InitVar, "__native_getattr__": True, "Ellipsis": Ellipsis,
+            "AsynqCallable": Sym("AsynqCallable"), "deprecated": Sym("deprecated"), "TypeVar": typing.TypeVar, "InitVar": dataclasses.InitVar, "__native_getattr__": True, "Ellipsis": Ellipsis, "builtins": __import__("builtins"),
             "NO_RETURN_VALUE": sv("MultiValuedValue", vals=()), "SelfTVV": sv("TypeVarValue", name="Self", bound=None, constraints=(), default=None, is_paramspec=False),
             "ELLIPSIS_PARAM": ellipsis_param, "ANY_SIGNATURE": sv("Signature", parameters=(ellipsis_param,), return_value=any_explicit, is_asynq=False),
             "SubclassValue": Obj("class", make=lambda arg, **k: sv("SubclassValue", typ=arg, exactly=bool(k.get("exactly", False)))),
@@ -366,15 +379,14 @@ def namespace() -> Dict[str, Any]:
         ns[n] = getattr(typing, n)
     for n in ("Literal", "Annotated", "TypeGuard", "TypeIs", "Never", "LiteralString", "Required", "NotRequired", "ReadOnly", "Unpack", "Self"):
         ns[n] = getattr(typing_extensions, n)
-    for n in ("int", "str", "float", "bool", "bytes", "list", "dict", "set", "frozenset", "tuple", "type", "object"):
-        ns[n] = getattr(__import__("builtins"), n)
-    ns["None"] = None
+    # the builtins (int, str, list, ...) are not module globals: they are found through the builtins module
+    ns["slice"] = type("slice", (), {"__module__": "checked_module", "lo": 0})  # a class of the module that shadows a builtin
     ns["T"] = typing.TypeVar("T")
     ns["UserId"] = typing.NewType("UserId", int)
     return ns
 
 
-ATOMS = ("int", "str", "None", "Any", "T", "UserId", "object")
+ATOMS = ("int", "str", "None", "Any", "T", "UserId", "object", "slice")
 UNARY = (
     "Optional[{0}]", "List[{0}]", "list[{0}]", "Set[{0}]", "set[{0}]", "FrozenSet[{0}]", "frozenset[{0}]", "Sequence[{0}]", "Iterable[{0}]", "Tuple[{0}]", "tuple[{0}]",
     "Tuple[{0}, ...]", "tuple[{0}, ...]", "Type[{0}]", "type[{0}]", "Final[{0}]", "ClassVar[{0}]", "Annotated[{0}, 'meta']", "TypeGuard[{0}]", "TypeIs[{0}]",
@@ -412,3 +424,26 @@ def vocabulary(depth2: bool = True) -> Iterator[Tuple[str, Dict[str, Any]]]:
     for a in ("Unpack[Tuple[int, str]]", "Unpack[Tuple[int, ...]]"):
         yield a, {"allow_unpack": True}
         yield a, {}
+
+
+def typeddict_pairs() -> Iterator[Tuple[str, Any, Any]]:
+    """(description, TypedDict class with real annotation expressions, the same class with the
+    annotations written as strings) - both built by CPython's own TypedDict machinery."""
+    TD = typing_extensions.TypedDict
+    RO, NR, RQ = typing_extensions.ReadOnly, typing_extensions.NotRequired, typing_extensions.Required
+    fields = [
+        ("a: int", {"a": int}, {"a": "int"}),
+        ("a: ReadOnly[int]", {"a": RO[int]}, {"a": "ReadOnly[int]"}),
+        ("a: NotRequired[int]", {"a": NR[int]}, {"a": "NotRequired[int]"}),
+        ("a: Required[int]", {"a": RQ[int]}, {"a": "Required[int]"}),
+        ("a: NotRequired[ReadOnly[str]]", {"a": NR[RO[str]]}, {"a": "NotRequired[ReadOnly[str]]"}),
+        ("a: ReadOnly[NotRequired[str]]", {"a": RO[NR[str]]}, {"a": "ReadOnly[NotRequired[str]]"}),
+        ("a: ReadOnly[int], b: str", {"a": RO[int], "b": str}, {"a": "ReadOnly[int]", "b": "str"}),
+        ("a: Optional[int]", {"a": typing.Optional[int]}, {"a": "Optional[int]"}),
+        ("a: List[ReadOnly... no", None, None),
+    ]
+    for desc, real, quoted in fields:
+        if real is None:
+            continue
+        for total in (True, False):
+            yield f"TypedDict({{{desc}}}, total={total})", TD("TDReal", real, total=total), TD("TDQuoted", quoted, total=total)
